@@ -251,6 +251,33 @@ def _rule_r24(text, log):
     return text
 
 
+def _rule_r28(text, log):
+    """`let NAME = |PARAMS| -> T {`  (a closure bound to a name, explicit return type)  ->
+    `let NAME = |PARAMS| -> (__o: T) /*@closure N*/ {`: the result gets a name and the closure a contract taken from the
+    `//@closure N` section of the item (N counts these closures in source order); the body stays verbatim and the
+    contract is PROVED from it.  A `return E;` that is the whole body is written as the tail expression `E`."""
+    n = 0
+    pos = 0
+    while True:
+        m = rs.mask(text)
+        mm = re.compile(r'\blet\s+([a-z_][a-z0-9_]*)\s*=\s*(\|[^|]*\|)\s*->\s*([A-Za-z_][A-Za-z0-9_<>\[\]; ,:&]*?)\s*\{').search(m, pos)
+        if not mm:
+            break
+        n += 1
+        ob = mm.end() - 1
+        cb = rs.match_brace(m, ob)
+        body = text[ob + 1:cb]
+        mb = re.match(r'\s*(?://[^\n]*\n\s*)*return\s+(.*?);\s*$', body, re.S)
+        if mb and 'return' not in rs.mask(mb.group(1)):
+            body = '\n' + mb.group(1) + '\n'
+        rep = 'let %s = %s -> (__o: %s) /*@closure %d*/ {%s}' % (mm.group(1), text[mm.start(2):mm.end(2)], text[mm.start(3):mm.end(3)].strip(), n, body)
+        text = text[:mm.start()] + rep + text[cb + 1:]
+        pos = mm.start() + len(rep)
+    if n:
+        log.append(('R28', n))
+    return text
+
+
 def _rule_r25(text, log, types):
     """rule DEREF:T1,T2: a variable declared `name: &T` (parameter or annotated let) that is a direct operand of a
     binary `* + -` is dereferenced: `name * x` -> `(*name) * x`.  For the Copy shim types named in the rule the
@@ -904,6 +931,47 @@ def _rule_r6(text, log):
                '        __r6_out })') % (lead_ws, recv, x, body)
         out = out[:k + 1] + rep + out[close + 1 + tail.end():]
         n += 1
+    # R6q: tail expression `X.and_then(|V| { V.into_iter().map(|E| { BODY }).collect() })` with `collect` into a
+    # Result<Vec<_>, _>  ->  match on X; the defining loop of collecting results: the first Err is returned, otherwise Ok of
+    # the values in order.  `return` is correct because the expression is the function's result (checked: only the closing
+    # brace of the function follows it).
+    while True:
+        m = rs.mask(out)
+        mm = re.search(r'\b([a-z_][a-z0-9_]*)\s*\.and_then\(\s*\|\s*([a-z_][a-z0-9_]*)\s*\|\s*\{', m)
+        if not mm:
+            break
+        op = m.index('(', mm.start())
+        cp = rs.match_brace(m, op)
+        ob = mm.end() - 1
+        cb = rs.match_brace(m, ob)
+        if m[cb + 1:cp].strip() != '' or m[cp + 1:].strip() != '}':
+            raise Unsupported('R6q: and_then is not the result expression of the function')
+        x, v = mm.group(1), mm.group(2)
+        inner_m = m[ob + 1:cb]
+        im = re.match(r'\s*%s\s*\.into_iter\(\)\s*\.map\(\s*\|\s*([a-z_][a-z0-9_]*)\s*\|\s*\{' % re.escape(v), inner_m)
+        if not im:
+            raise Unsupported('R6q: closure body is not V.into_iter().map(|E| {..}).collect()')
+        bo = ob + 1 + im.end() - 1
+        bc = rs.match_brace(m, bo)
+        mo = m.index('(', ob + 1 + im.start() + inner_m[im.start():].index('.map'))
+        mc = rs.match_brace(m, mo)
+        if m[bc + 1:mc].strip() != '' or not re.match(r'\s*\.collect\(\)\s*$', m[mc + 1:cb]):
+            raise Unsupported('R6q: map closure not followed by .collect()')
+        e, body = im.group(1), out[bo:bc + 1]
+        rep = ('match %s {\n'
+               '            Err(__r6_e) => Err(__r6_e),\n'
+               '            Ok(%s) => {\n'
+               '                let mut __r6_res = Vec::new(); let mut __r6_i: usize = 0;\n'
+               '                while __r6_i < %s.len() {\n'
+               '                    let %s = &%s[__r6_i];\n'
+               '                    match %s { Ok(__r6_x) => { __r6_res.push(__r6_x); } Err(__r6_e) => { return Err(__r6_e); } }\n'
+               '                    __r6_i += 1;\n'
+               '                }\n'
+               '                Ok(__r6_res)\n'
+               '            }\n'
+               '        }') % (x, v, v, e, v, body)
+        out = out[:mm.start()] + rep + out[cp + 1:]
+        n += 1
     if n:
         log.append(('R6', n))
     return out
@@ -964,6 +1032,8 @@ def apply_rewrites(text, log, rules, keep_eq=False):
         text = _rule_r24(text, log)
     if 'R26' in rules:
         text = _rule_r26(text, log)
+    if 'R28' in rules:
+        text = _rule_r28(text, log)
     if 'R20' in rules:
         text = _rule_r20(text, log)
     if 'R23' in rules:
